@@ -81,6 +81,13 @@ def main(argv=None):
         importlib.import_module("contracts." + os.path.basename(m)[:-3])
     for s in api.SPECS.values():
         env.spec_decl(s)
+    # symbolic-only helper names used by contracts (e.g. the SRP model symbols)
+    for m in list(sys.modules.values()):
+        if getattr(m, "__name__", "").startswith("contracts."):
+            for nm, impl in getattr(env, "srp_symbols", {}).items():
+                f = getattr(m, nm, None)
+                if f is not None:
+                    env.stub(f, impl)
     contracts = [c for c in api.CONTRACTS if c.prop == prop and (not args.only or args.only in c.target)]
     for c in api.CONTRACTS:
         if getattr(c, "modular", False):
@@ -229,7 +236,7 @@ def main(argv=None):
     # bounded stand-ins declared by contracts (never counted as proved)
     standins = []
     for con in contracts:
-        bs = getattr(con, "bounded", None)
+        bs = getattr(con, "bounded", None) or getattr(con, "bounded_run", None)
         if bs is not None:
             try:
                 r = replay_mod.run_bounded(env, con, tier, seed)
